@@ -93,10 +93,13 @@ PROPS = {
    "SF/Proofs/JsonGrammar.lean: any whitespace, nesting, every escape incl. surrogate pairs, integers and floats) is accepted and "
    "delivered as exactly the value the grammar assigns, also as a stream of texts and under every chunking; rfc_string_value / "
    "integer_value_ref / number_value tie strings and numbers to the independent reference lexer of SF/Json/Cst.lean.",
-   "Kernel-checked: every grammatical text is read with its value (streams, every chunking); float conversion delegated to strconv "
-   "is modelled by exact rational rounding and checked by oracle.",
+   " PropsJsonConv.C04 (the CONVERSE, last clause of the property): accepted_is_stream / accepted_iff / not_stream_is_rejected / accepted_chunks_is_stream: Parse accepts a byte "
+   "string IF AND ONLY IF it is white space + a stream of documents of the grammar (+ one last bare number); the bracket / comma / colon / key structure is strict, the lexical "
+   "leniencies of this parser (Go white space, strconv number spellings, glued top-level documents, \\' and raw non-UTF-8 in strings) are explicit in the predicates and each a kernel-evaluated example.",
+   "Kernel-checked in BOTH directions: every grammatical text is read with its value (streams, every chunking), and everything accepted is such a stream (exact characterisation of acceptance); "
+   "float conversion delegated to strconv is modelled by exact rational rounding and checked by oracle.",
    partial="float literals: the mirror calls the specification's correctly rounded conversion where the code calls strconv.ParseFloat "
-           "(tied by correspondence; one known finding beyond 800 digits); refusal of ungrammatical texts: reference-decoder oracle + C03 theorems"),
+           "(tied by correspondence; one known finding beyond 800 digits)"),
  "C05": P("DESIGN.md 7 C05",
    "Lean 4 proof (parser refines the RFC 7049-subset grammar, mutual structural induction) + differential correspondence",
    "parse_supported: for every stream of well-formed items of the supported subset (any argument width, definite/"
@@ -120,7 +123,7 @@ PROPS = {
    "(no size bound) the events the parser delivers build the value the independently written draft-12 reference decoder reads from the same bytes.",
    "Kernel-checked in full against the grammar of SF/Proofs/UbjItem.lean (a fuel side condition of the MODEL only: at most 10^6 "
    "payload-free elements per typed array, cf. the known finding); refusal of what is outside the grammar: reference-decoder oracle.",
-   partial="the converse (everything accepted is grammatical) is decided by the reference-decoder oracle, not proved"),
+   partial="the side conditions that stem from the mirror's fuel (payload-free typed containers with more than 10^6 elements)"),
  "C07": P("DESIGN.md 7 C07",
    "Lean 4 proof (encoder output is the wire form of a well-formed item the reference decoder reads back) + differential correspondence",
    "cbor_output_valid: for every well-formed stream the CBOR encoder's bytes are `wire` of an `ok` item with the stream's "
